@@ -189,6 +189,10 @@ def memo_sites(f: FunctionInfo) -> list[MemoSite]:
                 gifs = [p for p in _enclosing_ifs(st, f.node) if _is_missing_test(p.test, table) and _in_body(st, p)]
                 if not gifs:
                     continue
+                if (isinstance(value, (ast.Dict, ast.List, ast.Set, ast.Tuple)) and not (value.keys if isinstance(value, ast.Dict) else value.elts)) or \
+                        (isinstance(value, ast.Call) and not value.args and call_name(value) in ("dict", "list", "set", "defaultdict", "OrderedDict", "deque", "WeakKeyDictionary")) or \
+                        (isinstance(value, ast.Call) and call_name(value) == "defaultdict") or (isinstance(value, ast.Constant)):
+                    continue          # creating the (empty) table / a constant: nothing is remembered yet
                 other_stores = [x for x in nodes if isinstance(x, (ast.Assign, ast.AnnAssign, ast.AugAssign)) and x is not st
                                 and any(_tab(tt) == table for tt in (x.targets if isinstance(x, ast.Assign) else [x.target]))
                                 and not any(_in_body(x, g) for g in gifs)]
